@@ -10,6 +10,11 @@ PID = "C11"
 PKG = "./services/blockrelay/standard"
 TEST = "TestVerifC11"
 TRACE = ("Trace_BlockRelay_C11", "Trace_BlockRelay_C11.cfg")
+# fifth round - the resolution clause on the WIRED instance (spec/BlockRelayResolve.tla): every entry point of the block
+# relay that resolves proposer settings, on one instance, in every order, between installs
+WIRED_TEST = "TestVerifC11Wired"
+WIRED_TRACE = ("Trace_BlockRelayResolve", "Trace_BlockRelayResolve.cfg")
+ACCT_DOCS = {1: (1,), 2: (1,), 3: (2,), 5: (1, 2)}     # document -> validators whose settings depend on the account
 
 
 def driver(scenarios, tag):
@@ -26,12 +31,54 @@ def driver(scenarios, tag):
                          timeout=1500)
 
 
+def wired_driver(scenarios, tag):
+    # real block relay + real wallet account manager / validators manager + real signer + real preparer + go-builder-client
+    # HTTP clients to recording relay servers; one instance per history; a step that does not return within the
+    # watchdog is a Hung line (a wedge is a deadlock: it reproduces whatever the period)
+    wd = 5000
+    if tag.startswith("confirm"):
+        wd = 15000
+    return vf.run_driver(PID, PKG, WIRED_TEST, scenarios, "wired-" + tag, env={"VERIF_WATCHDOG_MS": wd}, timeout=900)
+
+
+def is_wired(s):
+    return s.get("family", "").startswith("wired")
+
+
+def wired_sig(s):
+    st = s["steps"]
+    return {"family": s["family"], "init": st[0].get("init", 0),
+            "start": {"active": st[0].get("active", []), "pending": st[0].get("pending", [])},
+            "steps": [x["ev"] + (":" + x["kind"] if x["ev"] == "Call" else "") +
+                      (":%d" % x["doc"] if x["ev"] == "Fetch" else "") for x in st[1:]]}
+
+
+def wired_nontrivial(s, rows):
+    # the antecedent of the clause: in the lifetime of one installed document whose settings for a validator depend on
+    # the ACCOUNT, an entry point other than the round / the preparer resolved that validator, and afterwards a round
+    # registered it or the preparer prepared it
+    doc, touched = 0, set()
+    for r in rows:
+        ev = r.get("ev")
+        if ev == "Reset":
+            doc, touched = r.get("init", 0), set()
+        elif ev == "Fetch" and r.get("out") == "good" and r.get("asked"):
+            doc, touched = r["doc"], set()
+        elif ev == "Call":
+            touched.add(r["v"])
+        elif ev in ("Round", "Prep") and any(v in touched and v in ACCT_DOCS.get(doc, ()) for v in r.get("vs", [])):
+            return True
+    return False
+
+
 def _bad_docs(s):
     return {d["id"]: set(d.get("bad", [])) for d in s["steps"][0].get("docs", [])}
 
 
 def sig_of(s):
     """Which ingredients of the property a scenario has (used to match open findings)."""
+    if is_wired(s):
+        return wired_sig(s)
     bad = _bad_docs(s)
     active, unresolvable_round, failures, changes, errkinds = 0, False, False, 0, set()
     for st in s["steps"][1:]:
@@ -140,6 +187,50 @@ def scenarios(tier):
     return out
 
 
+def wired_scenarios(tier, first_id):
+    """Histories of the entry points that RESOLVE (Scen_BlockRelayResolve.tla): the two scripted families are enumerated
+    by TLC and run completely (a wired history costs ~10 ms), the simulated ones are seeded."""
+    n = 120 if tier == "quick" else 1500
+    gen = lambda cfg, name, **kw: vf.tlc_scenarios(PID, "Scen_BlockRelayResolve", cfg, name=name, timeout=900, **kw)
+    with ThreadPoolExecutor(max_workers=3) as ex:
+        f_poison = ex.submit(gen, "Scen_BlockRelayResolve_poison.cfg", "scen-res-poison", exhaustive=True)
+        f_refetch = ex.submit(gen, "Scen_BlockRelayResolve_refetch.cfg", "scen-res-refetch", exhaustive=True)
+        f_sim = ex.submit(gen, "Scen_BlockRelayResolve.cfg", "scen-res", num=n, depth=12)
+        fams = [("wired-poison", f_poison.result()), ("wired-refetch", f_refetch.result()), ("wired-sim", f_sim.result()[:n])]
+    out = []
+    for fam, hs in fams:
+        for h in hs:
+            out.append({"sc": first_id + len(out), "family": fam, "steps": h})
+    return out
+
+
+RESOLVE_MC = ["MC_BlockRelayResolve.cfg", "MC_BlockRelayResolve_memo_acct.cfg",
+              # the control design under the alphabets the check used to have: only the entry points that hand the
+              # account over / only documents whose entries name public keys - nothing to see there (must pass)
+              "MC_BlockRelayResolve_memo_pubkey_old_kinds.cfg", "MC_BlockRelayResolve_memo_pubkey_old_docs.cfg"]
+# 'memo keyed by public key' with every entry point, and with each nil-account sibling alone: TLC must reject
+RESOLVE_CONTROLS = ["memo_pubkey", "memo_pubkey_fwd", "memo_pubkey_unblind", "memo_pubkey_bid"]
+
+
+def resolve_design_checks(v, tier):
+    with ThreadPoolExecutor(max_workers=4) as ex:
+        mcs = [ex.submit(vf.tlc_exhaustive, PID, "BlockRelayResolve", c, workers=2, timeout=900, heap="2g",
+                         name="mc-res-" + c[len("MC_BlockRelayResolve"):-4].strip("_")) for c in RESOLVE_MC]
+        rs = list(ex.map(lambda c: vf.tlc(PID, "mc-res-" + c, "BlockRelayResolve", "MC_BlockRelayResolve_%s.cfg" % c,
+                                          workers=2, timeout=600), RESOLVE_CONTROLS))
+        for c, r in zip(RESOLVE_CONTROLS, rs):
+            if not (r["kind"] == "invariant" and r["violated"] in ("RegistrationsFollowConfig", "PreparationsFollowConfig")):
+                raise vf.Broken("the control model %s (resolved settings remembered per PUBLIC KEY until the next install, "
+                                "the account left out of the key) is no longer rejected (%s %s)" % (c, r["kind"], r["violated"]))
+        done = [f.result() for f in mcs]
+    vf.log("model self-check (resolution clause): settings remembered per public key until the next install violate "
+           "RegistrationsFollowConfig / PreparationsFollowConfig as soon as a nil-account entry point (forwarded registration, "
+           "unblinding, immediate bid - each alone) resolves a validator before the round; the same design passes when only the "
+           "round / preparer / auction resolve or when every entry names a public key; remembered per (public key, account) "
+           "everything holds (as they must)")
+    return done
+
+
 KIND_CONTROLS = [("prep_giveup", ("PreparationIsolated",)), ("reg_giveup", ("FailureIsolated",)),
                  ("kindcancel", ("FailureIsolated", "PreparationIsolated", "ForwardedAll"))]
 
@@ -235,11 +326,33 @@ def run(tier):
         "configuration source, accounts, relays, beacon nodes and scheduler are scripted fakes at the services' interfaces; "
         "the signer is the real standard signer with BLS keys (every 4th scenario in quick, all in thorough) or a hashing one",
     ]
-    with ThreadPoolExecutor(max_workers=2) as ex:      # model checking and scenario generation side by side
-        f_sc = ex.submit(scenarios, tier)
-        design_checks(v, tier)
-        sc = f_sc.result()
-    vf.conformance(v, sc, driver, TRACE[0], TRACE[1], sig_of, nontrivial, tlc_timeout=1500, chunk=150)
+    v.assumptions.append(
+        "wired family (resolution clause): real block relay, wallet account manager over a filesystem wallet store, validators "
+        "manager, signer, preparer and go-builder-client HTTP clients; fakes at the configuration source, the relay HTTP "
+        "servers, the beacon-node interfaces and the bid strategy; steps of a history run one after the other")
+    # VERIF_C11_PART=wired|fakes runs one half only (a development aid on a loaded machine; a run for the record sets nothing)
+    part = os.environ.get("VERIF_C11_PART", "")
+    with ThreadPoolExecutor(max_workers=4) as ex:      # model checking and scenario generation side by side
+        f_sc = ex.submit(scenarios, tier) if part != "wired" else None
+        f_wsc = ex.submit(wired_scenarios, tier, 1000001) if part != "fakes" else None
+        f_res = ex.submit(resolve_design_checks, v, tier) if part != "fakes" else None
+        if part != "wired":
+            design_checks(v, tier)
+        for r in (f_res.result() if f_res else []):
+            v.add_mc(r)
+        sc = f_sc.result() if f_sc else []
+        wsc = f_wsc.result() if f_wsc else []
+    # the wired family first (seconds); its replay directories are numbered from 101
+    orig = vf.save_replay
+    vf.save_replay = lambda pid, n, *a: orig(pid, n + 100, *a)
+    try:
+        if wsc:
+            vf.conformance(v, wsc, wired_driver, WIRED_TRACE[0], WIRED_TRACE[1], sig_of, wired_nontrivial, tlc_timeout=900,
+                           chunk=200, max_failures=3)
+    finally:
+        vf.save_replay = orig
+    if sc:
+        vf.conformance(v, sc, driver, TRACE[0], TRACE[1], sig_of, nontrivial, tlc_timeout=1500, chunk=150)
     v.coverage["rule"] = ("input sequences defined by Scen_BlockRelay_C11.tla: every failure combination of one round per "
                           "document, every sequence of three configuration changes with a round after each, a round with "
                           "every failure combination followed by further rounds and a forwarding call on the same instance, "
@@ -250,7 +363,15 @@ def run(tier):
                           "and TLC-simulated histories of fetches / rounds (also held ones with such windows) / preparations "
                           "/ REST registrations (seeded), replayed on ONE real block relay and proposal preparer per history; non-trivial = "
                           "something was submitted and the scenario has a failure, an unresolvable validator or a second round; "
-                          "distinct by step list")
+                          "distinct by step list. Wired family (resolution clause, Scen_BlockRelayResolve.tla): every history "
+                          "'fetch a document ; another entry point - forwarded registration, unblinding, auction, immediate bid - "
+                          "resolves a validator that is pending / foreign / active ; it becomes active (activation epoch reported / "
+                          "account imported) ; round ; preparation (either order)' and 'fetch ; round ; preparation ; fetch ; other "
+                          "entry point ; round ; preparation' over five version-2 documents with account-regex entries (enumerated, "
+                          "all run), and TLC-simulated histories over every entry point (seeded), each on ONE wired instance; "
+                          "non-trivial = an entry point other than the round / preparer resolved a validator whose settings depend "
+                          "on the account within the lifetime of the installed document, and the validator was registered / prepared "
+                          "afterwards")
     return v.finish()
 
 
@@ -258,5 +379,8 @@ def replay(path):
     v = vf.Verdict(PID, "quick")
     with open(os.path.join(path, "scenario.json")) as fh:
         s = json.load(fh)
+    if is_wired(s):
+        vf.conformance(v, [s], wired_driver, WIRED_TRACE[0], WIRED_TRACE[1], sig_of, wired_nontrivial)
+        return 1 if v.violations else 0
     vf.conformance(v, [s], driver, TRACE[0], TRACE[1], sig_of, nontrivial)
     return 1 if v.violations else 0
